@@ -1,7 +1,43 @@
 (* C05: STAM JSON round trip (property theorems; proofs in Proofs/StamJson*.v). *)
 From Coq Require Import List NArith ZArith.
 Import ListNotations.
-From Stam Require Import Model.Offset Model.Json Model.TempId Model.StamJson Spec.StamJsonSpec Proofs.StamJson Proofs.StamJsonSave.
+From Stam Require Import Model.Offset Model.Json Model.TempId Model.StamJson Spec.StamJsonSpec Proofs.StamJson Proofs.StamJsonSave
+     Proofs.StamJsonLoad Proofs.StamJsonAnn Proofs.StamJsonWhole.
+
+(* THE PROPERTY.  For every well-formed store (Spec/StamJsonSpec.v wf_dstore: no dangling references,
+   annotations refer to earlier annotations, ranges inside their text and their parent's range,
+   unique identifiers none of which starts with '!', distinct stand-off file names, handles within
+   their integer widths; any slots may be removed, any items may lack public identifiers, any
+   resources and datasets may be kept in stand-off files): the store can be written; loading the
+   documents succeeds; the loaded store shows the same canonical observation (resources and texts,
+   datasets, keys, typed values, annotations in order with names, data references, targets with
+   kinds, referenced items, offsets in their alignment, absolute ranges); and writing the loaded
+   store gives the same documents again. *)
+Theorem C05_roundtrip : forall s, wf_dstore s = true -> roundtrip_ok s.
+Proof. exact roundtrip. Qed.
+
+Theorem C05_decode_encode : forall s c, wf_dstore s = true -> canon s = Some c ->
+  exists s', decode (encode_c c) = Some s' /\ canon s' = Some c.
+Proof. exact decode_encode_canon. Qed.
+
+(* (d) what is written depends on the observation only: stores that look the same write the same *)
+Theorem C05_encode_respects_model : forall s s', same_model s s' -> encode s = encode s'.
+Proof. exact encode_respects_model. Qed.
+
+Theorem C05_wellformed_writable : forall s, wf_dstore s = true -> exists c, canon s = Some c.
+Proof. exact wf_canon. Qed.
+
+(* (a) temporary identifiers: an item written as "!A<h>" goes back to handle h (the list is
+   padded with removed slots up to h), an item with a public identifier is appended *)
+Theorem C05_gapfill_places : forall (l : list (option dann)) k h,
+  (N.of_nat h < USIZE)%N -> length l <= h ->
+  gap_fill 0 l (Some (temp_id k (N.of_nat h))) = Some (l ++ repeat None (h - length l), None)
+  /\ length (l ++ repeat None (h - length l)) = h.
+Proof. intros l k h U L. split; [apply gap_fill_temp; assumption|apply pad_length; exact L]. Qed.
+
+Theorem C05_gapfill_public : forall (l : list (option dann)) pre id,
+  reserved id = false -> gap_fill pre l (Some id) = Some (l, Some id).
+Proof. intros. apply gap_fill_public. assumption. Qed.
 
 (* (b) the value codec: all seven value types, lists nested to any depth *)
 Theorem C05_value_codec : forall v, parse_val (json_of_val v) = Some v.
